@@ -49,6 +49,10 @@ func scripts() []behaviour {
 			rd("s2s_round", "5"), rd("s2s_summary", "b5"), rd("confirm", "b5t1"),
 			{Op: "peers", Up: false}, {Op: "hc", R: 7, Mode: "proximity"}, {Op: "losefile", B: "b2"}, {Op: "hc", R: 2, Mode: "proximity"},
 			{Op: "peers", Up: true}, {Op: "hc", R: 2, Mode: "proximity"}, {Op: "hc", R: 7, Mode: "proximity"}, {Op: "hc", R: 6, Mode: "proximity"}})},
+		// the other sharders lag behind this one: the health check must keep what this sharder has
+		{R: 8, K: 0, Batch: 3, Ops: cat(pd(1, 7, true), []op{{Op: "finround", R: 5}, {Op: "finround", R: 7}, {Op: "peerlag", N: 5},
+			{Op: "hc", R: 4, Mode: "deep"}, {Op: "hc", R: 3, Mode: "deep"}, {Op: "losefile", B: "b3"}, {Op: "hc", R: 3, Mode: "deep"}, {Op: "hc", R: 6, Mode: "deep"},
+			{Op: "peerlag", N: 0}, {Op: "hc", R: 3, Mode: "deep"}, {Op: "hc", R: 6, Mode: "deep"}})},
 		// replication disabled and a fork block: only the canonical chain is stored
 		{R: 7, K: 0, Batch: 1, Ops: cat(pd(1, 4, true), []op{{Op: "produce", R: 2, N: 1, Fork: true}, {Op: "deliver", B: "f2"},
 			{Op: "produce", R: 4, N: 2, Fork: true}, {Op: "deliver", B: "f4"}}, pd(5, 7, true),
